@@ -149,6 +149,9 @@ class State(object):
         self.nfresh = 0
         self.alloc = z3.Int('alloc0')
         self.alloc0 = self.alloc
+        self.fn_alloc0 = self.alloc
+        self.fresh_epoch = 0
+        self.qdepth = 0
         self.pc.append(self.alloc > 0)
         self.old_heap = None
         self.old_locals = None
@@ -157,6 +160,8 @@ class State(object):
         self.fn = None           # FuncSrc being executed
         self.contract = None
         self.mod_targets = None  # evaluated modifies of the function under verification
+        self.frames = None       # [(targets, alloc threshold)]: function frame, then enclosing loops
+        self.pending_writes = []
         self.trace = []
         self.ghost = {}
         self.scope_depth = None
@@ -249,8 +254,30 @@ class State(object):
     # ---- heap
     def H(self, key, sort):
         if key not in self.heap:
-            self.heap[key] = z3.Const('H0_' + key, sort)
+            if self.fresh_epoch == 0:
+                self.heap[key] = z3.Const('H0_' + key, sort)
+            else:
+                # first touched after a havoc of the fresh region: equal to the initial heap
+                # on the objects that existed at function entry, arbitrary on the others
+                h0 = z3.Const('H0_' + key, sort)
+                h = z3.Const('H%d_%s' % (self.fresh_epoch, key), sort)
+                r = z3.Int('r!fr')
+                self.pc.append(z3.ForAll([r], z3.Implies(r < self.fn_alloc0, z3.Select(h, r) == z3.Select(h0, r)),
+                                         patterns=[z3.Select(h, r)]))
+                self.heap[key] = h
         return self.heap[key]
+
+    def havoc_fresh_region(self):
+        """Havoc every field and container content of the objects allocated since function entry."""
+        self.fresh_epoch = self.nfresh + 1
+        self.nfresh += 1
+        r = z3.Int('r!fr')
+        for key in list(self.heap.keys()):
+            old = self.heap[key]
+            h = z3.Const('H%d_%s' % (self.fresh_epoch, key), old.sort())
+            self.pc.append(z3.ForAll([r], z3.Implies(r < self.fn_alloc0, z3.Select(h, r) == z3.Select(old, r)),
+                                     patterns=[z3.Select(h, r)]))
+            self.heap[key] = h
 
     def field_key(self, cls, fname):
         dcls, ty = R.find_field(cls, fname)
@@ -294,6 +321,8 @@ class State(object):
 
     def assume_type(self, v):
         """Typing facts of a value just read from the heap / havocked / received."""
+        if self.qdepth > 0:
+            return      # under a quantifier binder: the term mentions bound variables
         t = v.t
         if t.kind == 'ref':
             self.assume(z3.And(v.z >= 0, v.z < self.alloc))
@@ -301,9 +330,15 @@ class State(object):
                 self.assume(z3.Or(v.z == 0, self.isinstance_term(v.z, t.name)))
         elif t.kind in ('list', 'set', 'dict'):
             self.assume(z3.And(v.z >= 0, v.z < self.alloc))
-            self.assume(z3.Or(v.z == 0, TYPEOF(v.z) == R.CLASSES[t.kind].tag))
             if t.kind == 'list':
-                self.assume(z3.Select(self.H('$llen', z3.ArraySort(z3.IntSort(), z3.IntSort())), v.z) >= 0)
+                # a List-typed slot may hold a tuple object (immutable sequence): duck typing
+                self.assume(z3.Or(v.z == 0, TYPEOF(v.z) == R.CLASSES['list'].tag,
+                                  TYPEOF(v.z) == R.CLASSES['tuple'].tag))
+            else:
+                self.assume(z3.Or(v.z == 0, TYPEOF(v.z) == R.CLASSES[t.kind].tag))
+            if t.kind == 'list':
+                if t.args and t.args[0].kind != 'unknown':
+                    self.assume(z3.Select(self.llen_arr(T.sort_of(t.args[0])), v.z) >= 0)
             if t.kind == 'dict':
                 self.assume(z3.Select(self.H('$dlen', z3.ArraySort(z3.IntSort(), z3.IntSort())), v.z) >= 0)
         elif t.kind == 'union' and t.args:
@@ -315,7 +350,10 @@ class State(object):
                     cond = z3.And(cond, r < self.alloc, self.isinstance_term(r, a.name))
                 elif a.is_reflike:
                     r = T.PyVal.o_v(v.z)
-                    cond = z3.And(cond, r < self.alloc, TYPEOF(r) == R.CLASSES[a.kind].tag)
+                    tg = TYPEOF(r) == R.CLASSES[a.kind].tag
+                    if a.kind == 'list':
+                        tg = z3.Or(tg, TYPEOF(r) == R.CLASSES['tuple'].tag)
+                    cond = z3.And(cond, r < self.alloc, tg)
                 alts.append(cond)
             self.assume(z3.Or(alts))
         elif t.kind == 'union':
@@ -323,8 +361,12 @@ class State(object):
                                                              T.PyVal.o_v(v.z) < self.alloc)))
 
     # ---- containers in the heap
-    def llen_arr(self):
-        return self.H('$llen', z3.ArraySort(z3.IntSort(), z3.IntSort()))
+    def llen_key(self, esort):
+        # one length map per element sort: lists of different element types never interfere
+        return '$llen:' + T.sort_name(esort)
+
+    def llen_arr(self, esort):
+        return self.H(self.llen_key(esort), z3.ArraySort(z3.IntSort(), z3.IntSort()))
 
     def larr_key(self, esort):
         return '$larr:' + T.sort_name(esort)
@@ -332,14 +374,14 @@ class State(object):
     def list_seq(self, ref, et):
         es = T.sort_of(et)
         a = self.H(self.larr_key(es), z3.ArraySort(z3.IntSort(), z3.ArraySort(z3.IntSort(), es)))
-        return SeqV(z3.Select(a, ref), z3.Select(self.llen_arr(), ref))
+        return SeqV(z3.Select(a, ref), z3.Select(self.llen_arr(es), ref))
 
     def list_store(self, ref, et, seq):
         es = T.sort_of(et)
         k = self.larr_key(es)
         a = self.H(k, z3.ArraySort(z3.IntSort(), z3.ArraySort(z3.IntSort(), es)))
         self.heap[k] = z3.Store(a, ref, seq.arr)
-        self.heap['$llen'] = z3.Store(self.llen_arr(), ref, seq.n)
+        self.heap[self.llen_key(es)] = z3.Store(self.llen_arr(es), ref, seq.n)
 
     def set_key(self, esort):
         return '$set:' + T.sort_name(esort)
@@ -460,9 +502,6 @@ class State(object):
                              self.fresh(z3.IntSort(), hint + '_n')))
             self.assume(v.z.n >= 0)
             return v
-        if ty.kind == 'setv':
-            es = T.sort_of(ty.args[0])
-            return Val(ty, self.fresh(z3.ArraySort(es, z3.BoolSort()), hint))
         v = Val(ty, self.fresh(T.sort_of(ty), hint))
         self.assume_type(v)
         return v
